@@ -463,9 +463,12 @@ func (gen *Generator) GenerateCond(args []Sexp) error {
 }
 
 func (gen *Generator) GenerateQuote(args []Sexp) error {
-	for _, expr := range args {
-		gen.AddInstruction(PushInstr{expr})
+	if len(args) != 1 {
+		// (quote a b) used to push both operands; the extra one was left
+		// on the data stack and surfaced as the value of a later evaluation.
+		return fmt.Errorf("quote takes exactly one argument, got %d", len(args))
 	}
+	gen.AddInstruction(PushInstr{args[0]})
 	return nil
 }
 
